@@ -20,7 +20,10 @@ from socketio import exceptions as sio_exc
 from . import refcodec, vloop
 from .tokens import val, tok, toks, TOKENS
 
-assert socketio.__file__.startswith('/repo/src/'), socketio.__file__
+import os as _os
+assert socketio.__file__.startswith(
+    _os.path.join(_os.environ.get('VERIF_REPO', '/repo'), 'src') + '/'), \
+    socketio.__file__
 
 
 class Boom(Exception):
